@@ -89,7 +89,7 @@ PROPS["C07"] = dict(
           "call); independent / first_use - at least two concurrent readers on a file with at least one page."),
     assumptions=["the OS scheduler decides the actual interleaving; the delay script only biases it"],
     engines=[pbt("c07_parallel", variant="omp", libs=["rapidcheck", "snappy", "lz4"], ldflags=["-Wl,--wrap=fseek,--wrap=fread"], name="c07_parallel_gomp", confirm_tries=12, fork_shrink=False,
-                 quick=dict(cases=150, size=60, procs=6), thorough=dict(cases=3000, size=100, procs=8)),
+                 quick=dict(cases=220, size=60, procs=6), thorough=dict(cases=3000, size=100, procs=8)),
              pbt("c07_parallel", variant="ompasan", libs=["rapidcheck", "snappy", "lz4"], ldflags=["-Wl,--wrap=fseek,--wrap=fread"], name="c07_parallel_libomp_asan", confirm_tries=12, fork_shrink=False,
                  quick=dict(cases=60, size=60, procs=6), thorough=dict(cases=1200, size=100, procs=8))],
     min_evaluations=dict(quick=600, thorough=15000),
@@ -480,6 +480,6 @@ PROPS["C19"] = dict(
     rule=("evaluations count (scenario, k) runs in which the k-th allocation really failed. Non-trivial: a scenario in which some failing request lies behind the third "
           "allocation (i.e. after the handle was created)."),
     assumptions=["only allocation requests made by carquet's own objects are failed; zlib/zstd/libc internals are not touched"],
-    engines=[pbt("c19_alloc", libs=["rapidcheck", "snappy", "lz4"], ldflags=["-Wl,--wrap=malloc,--wrap=calloc,--wrap=realloc,--wrap=strdup"], quick=dict(cases=80, size=60, procs=8), thorough=dict(cases=6000, size=100, procs=16))],
+    engines=[pbt("c19_alloc", libs=["rapidcheck", "snappy", "lz4"], ldflags=["-Wl,--wrap=malloc,--wrap=calloc,--wrap=realloc,--wrap=strdup"], quick=dict(cases=250, size=60, procs=8), thorough=dict(cases=6000, size=100, procs=16))],
     min_evaluations=dict(quick=5000, thorough=150000),
 )
